@@ -466,7 +466,17 @@ fn content_type_variant(base: &str, v: u8) -> Option<String> {
     }
 }
 
+/// the same request in protocol-neutral form (for the HTTP/2 client)
+#[derive(Clone, Debug, Default)]
+pub struct Parts {
+    pub ct: Option<String>,
+    pub body: Option<Vec<u8>>,
+    /// DATA frame sizes when the body is sent without a declared length
+    pub frames: Option<Vec<usize>>,
+}
+
 pub struct Wire {
+    pub parts: Parts,
     pub bytes: Vec<u8>,
     pub cuts: Vec<usize>,
     pub method: &'static str,
@@ -475,7 +485,12 @@ pub struct Wire {
     pub op: &'static str,
 }
 
-pub fn finish_request(method: &'static str, target: String, ct: Option<String>, body: Option<Vec<u8>>, fr: Option<&Framing>, tag: &str) -> (Vec<u8>, Vec<usize>) {
+pub fn finish_request(method: &'static str, target: String, ct: Option<String>, body: Option<Vec<u8>>, fr: Option<&Framing>, tag: &str) -> (Vec<u8>, Vec<usize>, Parts) {
+    let parts = Parts {
+        ct: ct.clone(),
+        body: body.clone(),
+        frames: fr.filter(|f| f.chunked).map(|f| f.chunk_sizes.iter().map(|s| *s as usize).collect()),
+    };
     let mut headers = vec![("x-verif-tag".to_string(), tag.to_string())];
     if let Some(ct) = ct {
         headers.push(("content-type".to_string(), ct));
@@ -493,7 +508,7 @@ pub fn finish_request(method: &'static str, target: String, ct: Option<String>, 
         (None, _) => http1::build_request(method, &target, &headers, None),
     };
     let cuts = fr.map(|f| f.cuts.iter().map(|c| (*c as usize) * bytes.len() / 1000).collect()).unwrap_or_default();
-    (bytes, cuts)
+    (bytes, cuts, parts)
 }
 
 pub fn render(req: &EchoReq, tag: &str, style_seed: u64) -> Wire {
@@ -502,8 +517,8 @@ pub fn render(req: &EchoReq, tag: &str, style_seed: u64) -> Wire {
     match req {
         EchoReq::Path(p) => {
             let target = format!("{}?{}", path_wire("/e/path", p, &mut st), tagq(&mut st));
-            let (bytes, cuts) = finish_request("GET", target.clone(), None, None, None, tag);
-            Wire { bytes, cuts, method: "GET", target, expected: json!({"path": path_expected(p), "query": {"tag": tag}, "body": null}), op: "ve_path" }
+            let (bytes, cuts, hp) = finish_request("GET", target.clone(), None, None, None, tag);
+            Wire { parts: hp, bytes, cuts, method: "GET", target, expected: json!({"path": path_expected(p), "query": {"tag": tag}, "body": null}), op: "ve_path" }
         }
         EchoReq::Wild(rest) => {
             let mut target = "/e/wild".to_string();
@@ -517,28 +532,27 @@ pub fn render(req: &EchoReq, tag: &str, style_seed: u64) -> Wire {
                 target.push('/');
             }
             target.push_str(&format!("?{}", tagq(&mut st)));
-            let (bytes, cuts) = finish_request("GET", target.clone(), None, None, None, tag);
-            Wire { bytes, cuts, method: "GET", target, expected: json!({"path": {"rest": rest}, "query": {"tag": tag}, "body": null}), op: "ve_wild" }
+            let (bytes, cuts, hp) = finish_request("GET", target.clone(), None, None, None, tag);
+            Wire { parts: hp, bytes, cuts, method: "GET", target, expected: json!({"path": {"rest": rest}, "query": {"tag": tag}, "body": null}), op: "ve_wild" }
         }
         EchoReq::Query(q) => {
             let pairs = query_pairs(tag, q, &mut st);
             let target = format!("/e/query?{}", enc_pairs(&pairs, &mut st));
-            let (bytes, cuts) = finish_request("GET", target.clone(), None, None, None, tag);
-            Wire { bytes, cuts, method: "GET", target, expected: json!({"path": null, "query": query_expected(tag, q), "body": null}), op: "ve_query" }
+            let (bytes, cuts, hp) = finish_request("GET", target.clone(), None, None, None, tag);
+            Wire { parts: hp, bytes, cuts, method: "GET", target, expected: json!({"path": null, "query": query_expected(tag, q), "body": null}), op: "ve_query" }
         }
         EchoReq::Json(j, f) => {
             let target = format!("/e/json?{}", tagq(&mut st));
             let body = json_text(&json_wire(j, &mut st), &mut st).into_bytes();
-            let (bytes, cuts) = finish_request("POST", target.clone(), content_type_variant("application/json", f.ct_variant), Some(body), Some(f), tag);
-            Wire { bytes, cuts, method: "POST", target, expected: json!({"path": null, "query": {"tag": tag}, "body": json_expected(j)}), op: "ve_json" }
+            let (bytes, cuts, hp) = finish_request("POST", target.clone(), content_type_variant("application/json", f.ct_variant), Some(body), Some(f), tag);
+            Wire { parts: hp, bytes, cuts, method: "POST", target, expected: json!({"path": null, "query": {"tag": tag}, "body": json_expected(j)}), op: "ve_json" }
         }
         EchoReq::All(p, q, j, f) => {
             let pairs = query_pairs(tag, q, &mut st);
             let target = format!("{}?{}", path_wire("/e/all", p, &mut st), enc_pairs(&pairs, &mut st));
             let body = json_text(&json_wire(j, &mut st), &mut st).into_bytes();
-            let (bytes, cuts) = finish_request("PUT", target.clone(), content_type_variant("application/json", f.ct_variant), Some(body), Some(f), tag);
-            Wire {
-                bytes,
+            let (bytes, cuts, hp) = finish_request("PUT", target.clone(), content_type_variant("application/json", f.ct_variant), Some(body), Some(f), tag);
+            Wire { parts: hp, bytes,
                 cuts,
                 method: "PUT",
                 target,
@@ -561,9 +575,8 @@ pub fn render(req: &EchoReq, tag: &str, style_seed: u64) -> Wire {
             }
             let body = enc_pairs(&pairs, &mut st).into_bytes();
             let ct = content_type_variant("application/x-www-form-urlencoded", f.ct_variant);
-            let (bytes, cuts) = finish_request("POST", target.clone(), ct, Some(body), Some(f), tag);
-            Wire {
-                bytes,
+            let (bytes, cuts, hp) = finish_request("POST", target.clone(), ct, Some(body), Some(f), tag);
+            Wire { parts: hp, bytes,
                 cuts,
                 method: "POST",
                 target,
@@ -574,23 +587,23 @@ pub fn render(req: &EchoReq, tag: &str, style_seed: u64) -> Wire {
         EchoReq::Multipart(parts, bstyle, f) => {
             let target = format!("/e/multipart?{}", tagq(&mut st));
             let (ct, body) = multipart(parts, style_seed, &mut st, *bstyle);
-            let (bytes, cuts) = finish_request("POST", target.clone(), Some(ct), Some(body), Some(f), tag);
+            let (bytes, cuts, hp) = finish_request("POST", target.clone(), Some(ct), Some(body), Some(f), tag);
             let exp: Vec<Value> = parts
                 .iter()
                 .map(|p| json!({"name": p.name, "filename": p.filename, "content_type": p.content_type, "data": bytes_echo(&p.data)}))
                 .collect();
-            Wire { bytes, cuts, method: "POST", target, expected: json!({"path": null, "query": {"tag": tag}, "body": exp}), op: "ve_multipart" }
+            Wire { parts: hp, bytes, cuts, method: "POST", target, expected: json!({"path": null, "query": {"tag": tag}, "body": exp}), op: "ve_multipart" }
         }
         EchoReq::Raw(b, f) => {
             let target = format!("/e/raw?{}", tagq(&mut st));
             let ct = if st.coin() { Some("application/octet-stream".to_string()) } else { None };
-            let (bytes, cuts) = finish_request("PUT", target.clone(), ct, Some(b.clone()), Some(f), tag);
-            Wire { bytes, cuts, method: "PUT", target, expected: json!({"path": null, "query": {"tag": tag}, "body": bytes_echo(b)}), op: "ve_raw" }
+            let (bytes, cuts, hp) = finish_request("PUT", target.clone(), ct, Some(b.clone()), Some(f), tag);
+            Wire { parts: hp, bytes, cuts, method: "PUT", target, expected: json!({"path": null, "query": {"tag": tag}, "body": bytes_echo(b)}), op: "ve_raw" }
         }
         EchoReq::Stream(b, f) => {
             let target = format!("/e/stream?{}", tagq(&mut st));
-            let (bytes, cuts) = finish_request("PUT", target.clone(), Some("application/octet-stream".into()), Some(b.clone()), Some(f), tag);
-            Wire { bytes, cuts, method: "PUT", target, expected: json!({"path": null, "query": {"tag": tag}, "body": bytes_echo(b)}), op: "ve_stream" }
+            let (bytes, cuts, hp) = finish_request("PUT", target.clone(), Some("application/octet-stream".into()), Some(b.clone()), Some(f), tag);
+            Wire { parts: hp, bytes, cuts, method: "PUT", target, expected: json!({"path": null, "query": {"tag": tag}, "body": bytes_echo(b)}), op: "ve_stream" }
         }
     }
 }
@@ -621,7 +634,8 @@ pub fn judge(w: &Wire, tag: &str, local: std::net::SocketAddr, resp: &http1::Raw
     let c = &j["ctx"];
     ensure!(c["op"] == json!(w.op), "ctx-op", "operation {} != {}", c["op"], w.op);
     ensure!(c["method"] == json!(w.method), "ctx-method", "method {} != {}", c["method"], w.method);
-    ensure!(c["uri"] == json!(w.target), "ctx-uri", "uri {} != {}", c["uri"], w.target);
+    let uri_ok = c["uri"] == json!(w.target) || c["uri"].as_str().map(|u| u.starts_with("http://") && u.ends_with(w.target.as_str()) && u.len() > w.target.len() && !u[7..u.len() - w.target.len()].contains('/')).unwrap_or(false);
+    ensure!(uri_ok, "ctx-uri", "uri {} != {}", c["uri"], w.target);
     ensure!(c["hdr_tag"] == json!(tag), "ctx-header", "header tag {} != {} (another request's data?)", c["hdr_tag"], tag);
     ensure!(c["remote_addr"] == json!(local.to_string()), "ctx-remote-addr", "remote_addr {} != client socket {}", c["remote_addr"], local);
     ensure!(
@@ -794,6 +808,92 @@ fn check_batch(live: &LiveEcho, rt: &tokio::runtime::Runtime, b: &Batch, st: &mu
     Ok(())
 }
 
+// ---- HTTP/2: multiplexed streams on one connection --------------------------
+
+/// All requests of all scripts are sent as concurrent streams of ONE HTTP/2
+/// connection; bodies go out with a declared length or as a sequence of DATA
+/// frames of the generated sizes without one.
+fn check_h2(addr: std::net::SocketAddr, rt: &tokio::runtime::Runtime, b: &Batch, st: &mut Stats) -> Result<(), Failure> {
+    use http_body_util::BodyExt;
+    use hyper_util::rt::{TokioExecutor, TokioIo};
+    type B = http_body_util::combinators::UnsyncBoxBody<bytes::Bytes, std::convert::Infallible>;
+    let nonce = splitmix64(b.clients.len() as u64 ^ b.clients.first().map(|c| c.style).unwrap_or(0) ^ 0x68_32);
+    let mut wires = vec![];
+    for (ci, cs) in b.clients.iter().enumerate() {
+        for (i, r) in cs.reqs.iter().enumerate() {
+            let tag = format!("h{}-{}-{:x}", ci, i, nonce);
+            let w = render(r, &tag, splitmix64(cs.style ^ (i as u64)));
+            wires.push((tag, w, r));
+        }
+    }
+    rt.block_on(async {
+        let stream = tokio::net::TcpStream::connect(addr).await.map_err(|e| Failure::new("connect", e.to_string()))?;
+        let local = stream.local_addr().map_err(|e| Failure::new("connect", e.to_string()))?;
+        let (sender, conn) = hyper::client::conn::http2::handshake::<_, _, B>(TokioExecutor::new(), TokioIo::new(stream)).await.map_err(|e| Failure::new("h2-handshake", e.to_string()))?;
+        let conn_task = tokio::spawn(async move {
+            let _ = conn.await;
+        });
+        let mut futs = vec![];
+        for (_, w, _) in &wires {
+            let mut rb = hyper::Request::builder().method(w.method).uri(format!("http://{}{}", addr, w.target)).header("x-verif-tag", wires.iter().find(|x| std::ptr::eq(&x.1, w)).map(|x| x.0.clone()).unwrap());
+            if let Some(ct) = &w.parts.ct {
+                rb = rb.header("content-type", ct);
+            }
+            let body: B = match (&w.parts.body, &w.parts.frames) {
+                (None, _) => http_body_util::Empty::new().boxed_unsync(),
+                (Some(b), None) => http_body_util::Full::new(bytes::Bytes::from(b.clone())).boxed_unsync(),
+                (Some(b), Some(sizes)) => {
+                    let mut frames = vec![];
+                    let mut pos = 0;
+                    let mut i = 0;
+                    while pos < b.len() {
+                        let n = if sizes.is_empty() { b.len() } else { sizes[i % sizes.len()].max(1) }.min(b.len() - pos);
+                        frames.push(Ok::<_, std::convert::Infallible>(hyper::body::Frame::data(bytes::Bytes::copy_from_slice(&b[pos..pos + n]))));
+                        pos += n;
+                        i += 1;
+                    }
+                    http_body_util::StreamBody::new(futures::stream::iter(frames)).boxed_unsync()
+                }
+            };
+            let req = rb.body(body).map_err(|e| Failure::new("h2-request-build", format!("{} {}: {}", w.method, truncate(&w.target, 200), e)))?;
+            let mut s = sender.clone();
+            futs.push(async move { tokio::time::timeout(Duration::from_secs(30), s.send_request(req)).await });
+        }
+        let results = futures::future::join_all(futs).await;
+        for ((tag, w, r), res) in wires.iter().zip(results) {
+            let resp = match res {
+                Ok(Ok(r)) => r,
+                Ok(Err(e)) => fail!(format!("no-response:{}", w.op), "[h2] {} {}: {}", w.method, truncate(&w.target, 200), e),
+                Err(_) => fail!(format!("no-response:{}", w.op), "[h2] {} {}: timeout", w.method, truncate(&w.target, 200)),
+            };
+            let status = resp.status().as_u16();
+            let headers: Vec<(String, Vec<u8>)> = resp.headers().iter().map(|(n, v)| (n.as_str().to_ascii_lowercase(), v.as_bytes().to_vec())).collect();
+            let body = resp.into_body().collect().await.map(|b| b.to_bytes().to_vec()).map_err(|e| Failure::new(format!("no-response:{}", w.op), format!("[h2] body: {}", e)))?;
+            let raw = http1::RawResp { status, reason: String::new(), headers, body, chunked: false };
+            judge(w, tag, local, &raw).map_err(|mut f| {
+                f.msg = format!("[h2, {} concurrent streams] {}", wires.len(), f.msg);
+                f
+            })?;
+            st.eval();
+            st.count(&format!("kind:{}", w.op));
+            if w.parts.frames.is_some() && w.parts.body.as_ref().map(|b| !b.is_empty()).unwrap_or(false) {
+                st.count("body_without_declared_length");
+            }
+            if needs_encoding(r) || wires.len() >= 4 {
+                st.nontrivial(hash_of(&format!("h2{:?}", r)));
+            }
+        }
+        st.count("connections");
+        if wires.len() >= 4 {
+            st.count("connections_4plus_streams");
+        }
+        st.sample(|| json!({"streams": wires.len(), "first": format!("{} {}", wires[0].1.method, truncate(&wires[0].1.target, 200))}));
+        drop(sender);
+        conn_task.abort();
+        Ok(())
+    })
+}
+
 // ---- HTTPS: interleaved TLS handshakes ------------------------------------------
 
 #[derive(Clone, Debug, Serialize, Deserialize)]
@@ -876,7 +976,7 @@ pub fn batch_strategy(max_clients: usize) -> impl Strategy<Value = Batch> {
 }
 
 pub fn run(ctx: &mut Ctx) {
-    ctx.rule = "batches of 1-16 (thorough 1-64) concurrent clients, each sending 1-5 requests (keep-alive or pipelined) to typed echo endpoints: path (string/u32/uuid/enum/i64/bool), wildcard, query (all scalar widths, char, f64, options, enum, default), JSON body (nested/recursive/tagged enum/map/options), urlencoded body, multipart, raw and streaming bodies; every value encoded with style choices (percent-encoding eagerness and hex case, '+' vs %20, key order, JSON escapes/whitespace, null vs absent, content-type spelling, content-length vs chunked with extensions/trailers, TCP split points). Oracle: echoed JSON of what the handler received == what was encoded; method/URI/header tag/peer address/request id belong to this request. non-trivial = value needing encoding (reserved, non-ASCII, empty, extreme) or chunked framing or a batch with >=4 concurrent peers; distinct by request".into();
+    ctx.rule = "batches of 1-16 (thorough 1-64) concurrent clients, each sending 1-5 requests (keep-alive or pipelined) to typed echo endpoints: path (string/u32/uuid/enum/i64/bool), wildcard, query (all scalar widths, char, f64, options, enum, default), JSON body (nested/recursive/tagged enum/map/options), urlencoded body, multipart, raw and streaming bodies; every value encoded with style choices (percent-encoding eagerness and hex case, '+' vs %20, key order, JSON escapes/whitespace, null vs absent, content-type spelling, content-length vs chunked with extensions/trailers, TCP split points). Oracle: echoed JSON of what the handler received == what was encoded; method/URI/header tag/peer address/request id belong to this request. non-trivial = value needing encoding (reserved, non-ASCII, empty, extreme) or chunked framing or a batch with >=4 concurrent peers; distinct by request. Phase h2_multiplexed sends a whole batch as concurrent streams of one HTTP/2 connection (bodies with a declared length or as DATA frames of generated sizes); phase https_interleaved_handshakes interleaves the TCP connect / TLS handshake / request steps of 2-5 clients".into();
     ctx.assume("floats in JSON bodies are restricted to values serde_json's fast path parses exactly; non-finite floats are not sent");
     ctx.assume("thread interleavings on the server are not controlled; only schedule-independent equalities are asserted");
     let rt = tokio::runtime::Builder::new_multi_thread().worker_threads(4).enable_all().build().unwrap();
@@ -894,6 +994,12 @@ pub fn run(ctx: &mut Ctx) {
     let live2 = start_echo(&srt, 1 << 20, dropshot::HandlerTaskMode::CancelOnDisconnect);
     let n = ctx.tier.pick(150, 2000);
     ctx.phase("echo_batches_cancel_mode", n, batch_strategy(maxc), |b, st| check_batch(&live2, &rt, b, st));
+    // HTTP/2: every request of a batch as a concurrent stream of one connection
+    let n = ctx.tier.pick(300, 4000);
+    let addr1 = live.addr;
+    ctx.phase("h2_multiplexed", n, batch_strategy(6), |b, st| check_h2(addr1, &rt, b, st));
+    ctx.require_frac("h2_multiplexed", "connections_4plus_streams", "connections", 0.4);
+    ctx.require_frac("h2_multiplexed", "body_without_declared_length", "connections", 0.3);
     // HTTPS: the accept path for TLS is separate code; interleave the handshakes of several clients
     let live3 = {
         let _g = srt.enter();
